@@ -50,6 +50,32 @@ fn check_seq(c: &SeqCase, reps: usize, obs: &mut Obs) -> Verdict {
             None => return Verdict::Fail("capture_diff panicked in a spawned thread".into()),
         }
     }
+    // the same with a deadline that has already passed (the approximation taken at the first
+    // deadline check is a function of the inputs too): repeated calls and fresh threads agree
+    if let Some(past) = std::time::Instant::now().checked_sub(std::time::Duration::from_secs(5)) {
+        let run_past = || similar::capture_diff_deadline(alg_of(c.alg), &c.old[..], c.old_r(), &c.new[..], c.new_r(), Some(past));
+        let first = match guard(run_past) {
+            Ok(o) => o,
+            Err(p) => return Verdict::Fail(format!("capture_diff_deadline with a passed deadline: {}", p)),
+        };
+        for r in 0..4 {
+            match guard(run_past) {
+                Ok(o) if o == first => {}
+                Ok(o) => return Verdict::Fail(format!("{}: with a deadline that has already passed, repetition {} gives {:?}, the first call gave {:?}", alg_name(c.alg), r, o, first)),
+                Err(p) => return Verdict::Fail(format!("capture_diff_deadline with a passed deadline: {}", p)),
+            }
+        }
+        let outs: Vec<Option<Vec<DiffOp>>> = std::thread::scope(|s| {
+            let hs: Vec<_> = (0..1).map(|_| s.spawn(|| std::panic::catch_unwind(std::panic::AssertUnwindSafe(run_past)).ok())).collect();
+            hs.into_iter().map(|h| h.join().ok().flatten()).collect()
+        });
+        for o in outs {
+            if o.as_ref() != Some(&first) {
+                return Verdict::Fail(format!("{}: with a deadline that has already passed, a fresh thread gives {:?}, this thread gave {:?}", alg_name(c.alg), o, first));
+            }
+        }
+        execs += 6;
+    }
     // order-preserving injective relabellings: other values, hashes and types
     let f = |x: u32| (x as u64) * 7919 + 13;
     let (o64, n64): (Vec<u64>, Vec<u64>) = (c.old.iter().map(|x| f(*x)).collect(), c.new.iter().map(|x| f(*x)).collect());
@@ -242,7 +268,7 @@ impl Prop for C20 {
     type Case = Case;
     const ID: &'static str = "C20";
     fn rule() -> String {
-        "cases = Seq(algorithm, old, new, ranges) biased to many unique items with block moves and reversals (so hash-map iteration order could matter) | Text(old, new valid UTF-8, tokenizer in {lines, words, chars}, algorithm), sizes below and above 100 tokens. Each Seq case is executed 1 + 8 times in the same thread and in 4 freshly spawned threads (every HashMap::new() and every new thread draws fresh hasher keys), and under two order-preserving injective relabellings (u64 x -> 7919x+13, zero-padded Strings), with items whose lawful Hash only sees two bits of the value, and with different element types on the two sides (old u64, new Id32: PartialEq<u64> with an unrelated Hash); all op lists must be identical; full-range cases are also diffed as a TEXT diff (TextDiffConfig::diff_slices) over caller-defined DiffableStr tokens that compare by a key only while every occurrence has a different text. Families include sequences of 101-260/500 items with repeats and a long common head and tail, permutations of 90-400 and of 1030-1400/2600 distinct items. Text: str ops == [u8] ops, repeated runs identical. Non-trivial = >= 3 unique common items and >= 2 ops (Seq) / > 100 tokens (Text); distinct = distinct serialized case.".into()
+        "cases = Seq(algorithm, old, new, ranges) biased to many unique items with block moves and reversals (so hash-map iteration order could matter) | Text(old, new valid UTF-8, tokenizer in {lines, words, chars}, algorithm), sizes below and above 100 tokens. Each Seq case is executed 1 + 8 times in the same thread and in 4 freshly spawned threads (every HashMap::new() and every new thread draws fresh hasher keys), and under two order-preserving injective relabellings (u64 x -> 7919x+13, zero-padded Strings), with items whose lawful Hash only sees two bits of the value, and with different element types on the two sides (old u64, new Id32: PartialEq<u64> with an unrelated Hash); all op lists must be identical; with a deadline that has already passed, 5 calls in this thread and a fresh thread must agree as well; full-range cases are also diffed as a TEXT diff (TextDiffConfig::diff_slices) over caller-defined DiffableStr tokens that compare by a key only while every occurrence has a different text. Families include sequences of 101-260/500 items with repeats and a long common head and tail, permutations of 90-400 and of 1030-1400/2600 distinct items. Text: str ops == [u8] ops, repeated runs identical. Non-trivial = >= 3 unique common items and >= 2 ops (Seq) / > 100 tokens (Text); distinct = distinct serialized case.".into()
     }
     fn assumptions() -> Vec<String> {
         vec![
